@@ -427,6 +427,17 @@ func genMetric(r *rand.Rand, mode string) metricIn {
 		in.Recs = genMetricRecs(r, r.Intn(14), span, true)
 		in.Expr = *genRange(r, 1, true)
 		in.Evals = genEvals(r, span)
+		if r.Intn(10) == 0 {
+			// an order statistic over windows that overlap (points survive from one step to the next) and values that go up and down
+			in.Recs = genMetricRecs(r, 6+r.Intn(10), span, false)
+			e := genRange(r, 1, true)
+			for e.Op != "quantile_over_time" && e.Op != "min_over_time" && e.Op != "max_over_time" && e.Op != "first_over_time" {
+				e = genRange(r, 1, true)
+			}
+			e.Range = []int{10, 15, 20}[r.Intn(3)]
+			in.Expr = *e
+			in.Evals = []evalIn{{Start: mBase, End: mBase + span, Step: []int{1, 2, 3, 5}[r.Intn(4)]}, {Start: mBase + span/2, End: mBase + span/2}}
+		}
 	case "prec":
 		ops := []string{"or", "and", "unless", "eq", "neq", "gt", "gte", "lt", "lte", "add", "sub", "mul", "div", "mod", "pow"}
 		vals := [][]int{{1, 1}, {2, 1}, {3, 1}, {1, 2}, {0, 1}, {5, 1}, {3, 2}}
